@@ -9,6 +9,7 @@
 #include <cstring>
 #include <string>
 #include <unistd.h>
+#include <sched.h>
 
 struct HarnessInfo
 {
@@ -30,6 +31,7 @@ inline int harness_main(int argc, char** argv)
   uint64_t seed = 1, from = 0, count = 1;
   std::string replay, trace_dir, trace_out;
   bool keep = false;
+  long cpu = -1;
   for(int i = 1; i < argc; ++i)
   {
     std::string a = argv[i];
@@ -41,6 +43,16 @@ inline int harness_main(int argc, char** argv)
     else if(a == "--trace-dir") trace_dir = nxt();
     else if(a == "--trace-out") trace_out = nxt();
     else if(a == "--keep-traces") keep = true;
+    else if(a == "--cpu") cpu = atol(nxt());
+  }
+  {
+    // all tasks of a simulation run one at a time: pinning the whole process to one core turns every baton
+    // hand-over into a same-core context switch (20x faster than cross-core futex wake-ups)
+    long ncpu = sysconf(_SC_NPROCESSORS_ONLN);
+    if(ncpu < 1) ncpu = 1;
+    if(cpu < 0) cpu = long(getpid()) % ncpu;
+    cpu_set_t set; CPU_ZERO(&set); CPU_SET(int(cpu % ncpu), &set);
+    sched_setaffinity(0, sizeof(set), &set);
   }
   harness_process_init(argc, argv);
   HarnessInfo hi = harness_info();
